@@ -4,6 +4,7 @@ C10 — Printed digit tables place every digit at its true position.
 import Sqroot.Proofs.Overflow
 import Sqroot.Proofs.Print
 import Sqroot.Proofs.Fprint
+import Sqroot.Proofs.Fprint12
 import Sqroot.Proofs.EndToEnd
 namespace Sqroot.Props.C10
 open Sqroot.Model Sqroot.Proofs
@@ -84,5 +85,19 @@ theorem label_width_arithmetic_fits_int64 (row maxDigits : Int) (showCount : Boo
 
 example : Gen.V1.digitCountWidthOvf 50 true 9223372036854775807 = false ∧
     Gen.V1.digitCountWidth 50 true 9223372036854775807 = 19 := by decide
+
+/-- end to end for v1 / v2 (`Fprint` / `Sprint` over pull iterators with one digit of look-ahead):
+on any view chain of a Number with any normalised Positions the output is the canonical layout
+of exactly the requested positions that exist -/
+theorem fprint12_end_to_end (ver : Version) (c : MemoCfg) (m : Memo) (v : Val12) (chain : List ViewOp) (e : Int)
+    (ranges : List PRange) (s : PSettings) (w : Nat → List Nat → Nat × Bool × Nat) (st : Nat) (hw : Reliable w)
+    (hv : applyChain12 (.num .memo e) chain = some v)
+    (hnorm : Spec.NormalRanges (toPairs ranges)) (hfit : FitsRanges c m.src ranges)
+    (hd : ∀ p, m.src.digit p ≤ 9) :
+    ∃ r, fprint12 ver c m { w := w, st := st } s v ranges = some (.ok r) ∧
+      r.accepted = Spec.layout (toPOpts ver s (positionsEnd ranges))
+        (Spec.shownOf m.src.len m.src.digit (Spec.winOf (chain.map toSpecOp)) (toPairs ranges)) ∧
+      r.written = r.accepted.length ∧ r.err = false :=
+  fprint12_is_layout ver c m v chain e ranges s w st hw hv hnorm hfit hd
 
 end Sqroot.Props.C10
